@@ -580,8 +580,10 @@ def generic_diff(mod, ctx, cases, cov, violations, known_hits, notes):
             fid = classify(c, io_full) if classify else None
             # a listed finding is only recognised when the faithful model reproduces the
             # implementation's behaviour exactly; the same symptom with a different
-            # observation is a different violation
-            if fid and io == mo:
+            # observation is a different violation (a module may exempt cases whose
+            # surface is not modelled at all: known_needs_model(case) -> False)
+            needs_model = getattr(mod, "known_needs_model", None)
+            if fid and (io == mo or (needs_model is not None and not needs_model(c))):
                 known_hits.setdefault(fid, "%s on `%s`" % (bad_oracle, short(c.line, 160)))
                 continue
             if reported < 5:
